@@ -40,6 +40,15 @@ static int64_t v_pred(uint32_t p, int32_t* a, int32_t* b) {
 }
 static int fits32(int64_t v) { return v >= -2147483648LL && v <= 2147483647LL; }
 static void in_vec(int32_t* v) { for (int i = 0; i < 4; i++) v[i] = in_i32(); }
+#ifndef GROUP
+#define GROUP 0
+#endif
+#ifndef MB
+#define MB 127 /* operand bound for * / % */
+#endif
+#ifndef PB
+#define PB 16383 /* component bound for dot / norm2 */
+#endif
 #ifndef CB
 #define CB 4 /* component bound for the polynomial identities (property quantifier: [-4,4]) */
 #endif
@@ -47,33 +56,48 @@ static void in_vec(int32_t* v) { for (int i = 0; i < 4; i++) v[i] = in_i32(); }
 void harness(void) {
   int32_t a[4], b[4], c[4], out[4] = {0, 0, 0, 0};
 #if MODE == 0
-  /* every arithmetic operator (value-returning and compound forms) == componentwise definition */
+  /* every arithmetic operator (value-returning and compound forms) == componentwise definition.
+   * GROUP 0: unary -, + and - with a vector or a scalar: every input whose exact result fits int32_t.
+   * GROUP 1: * scalar; GROUP 2: / scalar; GROUP 3: % scalar: components and scalar in [-MB, MB] (the exact result then fits;
+   *          the reference is C's own int32 operator on the same operands - what is decided is that the right operation
+   *          reaches the right components, for both the value-returning and the compound form). */
   in_vec(a); in_vec(b);
   int32_t s = in_i32();
-  uint32_t op = (uint32_t)in_range(0, OP_COUNT - 1);
-  int64_t ref[4];
+  uint32_t op;
+  int32_t ref[4];
+#if GROUP == 0
+  static const uint8_t ops[] = {OP_NEG, OP_ADD_V, OP_SUB_V, OP_ADD_S, OP_SUB_S, OP_IADD_V, OP_ISUB_V, OP_IADD_S, OP_ISUB_S};
+  op = ops[in_range(0, sizeof(ops) - 1)];
   for (int i = 0; i < DIMS; i++) {
-    int64_t x = a[i], y = b[i];
+    int64_t x = a[i], y = b[i], r;
     switch (op) {
-      case OP_NEG: ref[i] = -x; break;
-      case OP_ADD_V: case OP_IADD_V: ref[i] = x + y; break;
-      case OP_SUB_V: case OP_ISUB_V: ref[i] = x - y; break;
-      case OP_ADD_S: case OP_IADD_S: ref[i] = x + s; break;
-      case OP_SUB_S: case OP_ISUB_S: ref[i] = x - s; break;
-      case OP_MUL_S: case OP_IMUL_S: ref[i] = x * (int64_t)s; break;
-      case OP_DIV_S: case OP_IDIV_S: ASSUME(s != 0); ref[i] = x / (int64_t)s; break; /* C++ truncating division */
-      default: ASSUME(s != 0); ref[i] = x % (int64_t)s; ASSUME(!(x == -2147483648LL && s == -1)); break;
+      case OP_NEG: r = -x; break;
+      case OP_ADD_V: case OP_IADD_V: r = x + y; break;
+      case OP_SUB_V: case OP_ISUB_V: r = x - y; break;
+      case OP_ADD_S: case OP_IADD_S: r = x + s; break;
+      default: r = x - s; break;
     }
-    ASSUME(fits32(ref[i]));
+    ASSUME(fits32(r));
+    ref[i] = (int32_t)r;
   }
+#else
+  op = (GROUP == 1 ? OP_MUL_S : GROUP == 2 ? OP_DIV_S : OP_MOD_S);
+  if (in_bool()) op += OP_IMUL_S - OP_MUL_S; /* compound form */
+  ASSUME(s >= -MB && s <= MB);
+  if (GROUP != 1) ASSUME(s != 0);
+  for (int i = 0; i < DIMS; i++) {
+    ASSUME(a[i] >= -MB && a[i] <= MB);
+    ref[i] = (GROUP == 1) ? a[i] * s : (GROUP == 2) ? a[i] / s : a[i] % s;
+  }
+#endif
   int64_t rc = v_op(op, a, b, s, out);
   ASSERT(rc == 0, "vector operator does not throw");
-  for (int i = 0; i < DIMS; i++) { OBS(out[i]); ASSERT((int64_t)out[i] == ref[i], "operator == componentwise definition"); }
+  for (int i = 0; i < DIMS; i++) { OBS(out[i]); ASSERT(out[i] == ref[i], "operator == componentwise definition"); }
 #elif MODE == 1
   /* !, ==, !=, norm1 (sum of components), norm2, dot, dimensions */
   in_vec(a); in_vec(b);
   int all0 = 1, eq = 1;
-  int64_t sum = 0, n2 = 0, dot = 0;
+  int64_t sum = 0;
   for (int i = 0; i < DIMS; i++) {
     if (a[i] != 0) all0 = 0;
     if (a[i] != b[i]) eq = 0;
@@ -88,16 +112,15 @@ void harness(void) {
     for (int i = 0; i < DIMS; i++) { part += a[i]; if (!fits32(part)) ok = 0; }
     if (ok) ASSERT(v_pred(P_NORM1, a, b) == sum, "norm1 == sum of components");
   }
-  /* products: components bounded so that every partial sum fits int32 */
+  /* products: components in [-PB, PB] so that every exact partial sum fits int32 (then int32 arithmetic is exact) */
   int small = 1;
-  for (int i = 0; i < DIMS; i++) {
-    if (a[i] < -16383 || a[i] > 16383 || b[i] < -16383 || b[i] > 16383) small = 0;
-    n2 += (int64_t)a[i] * a[i];
-    dot += (int64_t)a[i] * b[i];
-  }
+  for (int i = 0; i < DIMS; i++)
+    if (a[i] < -PB || a[i] > PB || b[i] < -PB || b[i] > PB) small = 0;
   if (small) {
-    ASSERT(v_pred(P_NORM2, a, b) == n2, "norm2 == sum of squares");
-    ASSERT(v_pred(P_DOT, a, b) == dot, "dot == sum of products");
+    int32_t n2 = 0, dot = 0;
+    for (int i = 0; i < DIMS; i++) { n2 += a[i] * a[i]; dot += a[i] * b[i]; }
+    ASSERT(v_pred(P_NORM2, a, b) == (int64_t)n2, "norm2 == sum of squares");
+    ASSERT(v_pred(P_DOT, a, b) == (int64_t)dot, "dot == sum of products");
   }
 #elif MODE == 2
   /* operator< : lexicographic, strict weak (indeed total) order consistent with == ; three symbolic vectors, full width */
@@ -130,11 +153,14 @@ void harness(void) {
   /* cross product: definition, and orthogonality to both operands (through phosg's dot), components in [-CB, CB] */
   for (int i = 0; i < 3; i++) { a[i] = (int32_t)in_irange(-CB, CB); b[i] = (int32_t)in_irange(-CB, CB); }
   a[3] = b[3] = 0;
+#ifdef A0
+  ASSUME(a[0] == (A0)); /* optional case split outside the solver */
+#endif
   int64_t rc = w_v3_cross((uint32_t*)a, (uint32_t*)b, (uint32_t*)out);
   ASSERT(rc == 0, "cross does not throw");
-  ASSERT((int64_t)out[0] == (int64_t)a[1] * b[2] - (int64_t)a[2] * b[1], "cross.x");
-  ASSERT((int64_t)out[1] == (int64_t)a[2] * b[0] - (int64_t)a[0] * b[2], "cross.y");
-  ASSERT((int64_t)out[2] == (int64_t)a[0] * b[1] - (int64_t)a[1] * b[0], "cross.z");
+  ASSERT(out[0] == a[1] * b[2] - a[2] * b[1], "cross.x");
+  ASSERT(out[1] == a[2] * b[0] - a[0] * b[2], "cross.y");
+  ASSERT(out[2] == a[0] * b[1] - a[1] * b[0], "cross.z");
   uint64_t d = 1;
   ASSERT(w_v3_pred(P_DOT, (uint32_t*)out, (uint32_t*)a, &d) == 0 && d == 0, "cross(a,b) . a == 0");
   d = 1;
